@@ -11,6 +11,7 @@
 -/
 import LiteFSVerif.Proofs.Image
 import LiteFSVerif.Model.Recovery
+import LiteFSVerif.Proofs.RecoveryPos
 
 set_option linter.unusedSimpArgs false
 
@@ -121,5 +122,36 @@ theorem C05_newest_file (l : List Engine.LTXFile) (f : Engine.LTXFile) (h : Reco
 
 /-! ### non-vacuity: crash after two of three page writes of a grow transaction -/
 example : rollback [11, 20, 31, 0] [10, 20, 30] [1, 3] = [10, 20, 30] := by decide
+
+/-- engine level (`DB.Open`, model `Recovery.openDB`): whatever a crash left on disk — a hot
+    journal, a WAL longer or shorter than the log knows, a database file that is any mixture of
+    two positions —, when the restart succeeds the node's position is exactly (max TXID,
+    post-apply checksum) of the newest transaction file on disk, the one `C05_newest_file`
+    characterises (the log counts as empty when the database header is unreadable: `clean()`).
+    That the image then is the image of that position is what the post-apply checksum verification
+    inside `applyLTX` enforces (C04) and what the crash suite observes on the real code. -/
+theorem C05_open_position_is_newest_file (d s : Engine.Eng) (h : Recovery.openDB d = .ok s) (f : Engine.LTXFile)
+    (hf : Recovery.maxLTXFile (Recovery.cleanedLtx d) = some f) :
+    s.posTxid = f.maxTxid ∧ s.posChk = f.post ∧ f ∈ Recovery.cleanedLtx d ∧
+    ∀ g ∈ Recovery.cleanedLtx d, g.maxTxid ≤ f.maxTxid := by
+  have hp := Recovery.openDB_position d s h f hf
+  have hn := C05_newest_file _ f hf
+  exact ⟨hp.1, hp.2, hn.1, hn.2⟩
+
+/-- engine level (`DB.Open`): a successful restart keeps exactly the transaction files that were
+    on disk (none, when the database header was unreadable) — recovery neither adds nor removes
+    files, so the recovered position is the newest file of the log the node then has — and leaves
+    no journal behind (a hot journal is rolled back and deleted) -/
+theorem C05_open_keeps_log_no_journal (d s : Engine.Eng) (h : Recovery.openDB d = .ok s) :
+    s.ltx = Recovery.cleanedLtx d ∧ s.journal = none :=
+  Recovery.openDB_frame d s h
+
+/-- both together: after a successful restart the position is that of the newest file *of the
+    node's own log* -/
+theorem C05_open_position_is_newest_of_own_log (d s : Engine.Eng) (h : Recovery.openDB d = .ok s)
+    (f : Engine.LTXFile) (hf : Recovery.maxLTXFile s.ltx = some f) :
+    s.posTxid = f.maxTxid ∧ s.posChk = f.post := by
+  rw [(Recovery.openDB_frame d s h).1] at hf
+  exact Recovery.openDB_position d s h f hf
 
 end LiteFSVerif.C05
